@@ -562,8 +562,15 @@ theorem lp_nack_bare (g : Guards) (hg : g.lpType = T.tLpPacket) (hdg : g.nackByD
 
 /-- non-vacuity: two Interests pending on /a, one of them asking for an implicit digest; a Nack for /a
     completes only the one without digest -/
-example : named ⟨[([[8, 1, 97]], [⟨0, false, []⟩, ⟨1, false, [7, 7]⟩])], []⟩ [[8, 1, 97]] = [⟨0, false, []⟩] ∧
-    named ⟨[([[8, 1, 97]], [⟨0, false, []⟩, ⟨1, false, [7, 7]⟩])], []⟩ [[8, 1, 97], [1, 2, 7, 7]] = [⟨1, false, [7, 7]⟩] := by
+example : named ⟨[([[8, 1, 97]], [⟨0, false, []⟩, ⟨1, false, List.replicate 32 7⟩])], []⟩ [[8, 1, 97]] = [⟨0, false, []⟩] ∧
+    named ⟨[([[8, 1, 97]], [⟨0, false, []⟩, ⟨1, false, List.replicate 32 7⟩])], []⟩
+      [[8, 1, 97], 1 :: 32 :: List.replicate 32 7] = [⟨1, false, List.replicate 32 7⟩] := by
+  decide
+
+/-- a Type-1 component that is not 32 bytes long is not an implicit digest: a Nack for `/a/<empty Type-1 component>`
+    names nobody (repaired in /repo: it used to nack the Interests pending on `/a`) -/
+example : named ⟨[([[8, 1, 97]], [⟨0, false, []⟩, ⟨1, false, List.replicate 32 7⟩])], []⟩ [[8, 1, 97], [1, 0]] = [] ∧
+    named ⟨[([[8, 1, 97]], [⟨0, false, []⟩])], []⟩ [[8, 1, 97], [1, 2, 7, 7]] = [] := by
   decide
 
 /-! ## fragmentation -/
